@@ -71,14 +71,23 @@ static int compare_inode_num(const void *ctx, const void *lhs, const void *rhs)
 	return l < r ? -1 : (l > r ? 1 : 0);
 }
 
+/*
+  The tree is built, and later walked, recursively. A path with more
+  components than this cannot be expressed within PATH_MAX anyway.
+ */
+#define MAX_TREE_DEPTH (4096)
+
 static int fill_dir(sqfs_dir_reader_t *dr, sqfs_tree_node_t *root,
 		    sqfs_dir_reader_state_t *state,
-		    unsigned int flags, rbtree_t *dirs_seen)
+		    unsigned int flags, rbtree_t *dirs_seen, size_t depth)
 {
 	sqfs_tree_node_t *n, *prev, **tail;
 	sqfs_inode_generic_t *inode;
 	sqfs_dir_node_t *ent;
 	int err;
+
+	if (depth > MAX_TREE_DEPTH)
+		return SQFS_ERROR_OVERFLOW;
 
 	tail = &root->children;
 
@@ -153,7 +162,8 @@ static int fill_dir(sqfs_dir_reader_t *dr, sqfs_tree_node_t *root,
 				if (err)
 					return err;
 
-				err = fill_dir(dr, n, &nstate, flags, dirs_seen);
+				err = fill_dir(dr, n, &nstate, flags, dirs_seen,
+					       depth + 1);
 				if (err)
 					return err;
 			}
@@ -298,7 +308,7 @@ int sqfs_dir_reader_get_full_hierarchy(sqfs_dir_reader_t *rd,
 		if (ret)
 			goto fail;
 
-		ret = fill_dir(rd, tail, &state, flags, &dirs_seen);
+		ret = fill_dir(rd, tail, &state, flags, &dirs_seen, 0);
 		rbtree_cleanup(&dirs_seen);
 		if (ret)
 			goto fail;
